@@ -502,6 +502,8 @@ class Interp:
             return self.call_function(f, list(args), kwargs)
         if isinstance(f, ModelMethod):
             return self.models.call_method(self, f.recv, f.name, args, kwargs)
+        if type(f).__name__ == "_Unstubbed":
+            return self.call_function(f.func, list(args), kwargs, nostub=True)
         if isinstance(f, Opaque):
             return self.models.call_opaque(self, f, args, kwargs)
         if isinstance(f, types.FunctionType):
@@ -521,6 +523,11 @@ class Interp:
             return self.call_native(f, args, kwargs)
         if isinstance(f, type):
             return self.call_class(f, args, kwargs)
+        if isinstance(f, SObj) or (self.is_interp_class(type(f)) and not isinstance(f, enum.Enum)):
+            cls = f.cls if isinstance(f, SObj) else type(f)
+            r = self.lookup_class_attr(cls, "__call__")
+            if r is not None and isinstance(r[0], types.FunctionType) and self.is_interp_func(r[0]):
+                return self.call_function(r[0], [f] + list(args), kwargs, defcls=r[1])
         return self.call_native(f, args, kwargs)
 
     def call_native(self, f, args, kwargs):
@@ -657,10 +664,10 @@ class Interp:
             self.raise_py(TypeError, f"{fname}() got an unexpected keyword argument '{next(iter(kw))}'")
         return out
 
-    def call_function(self, f, args, kwargs, defcls=None):
+    def call_function(self, f, args, kwargs, defcls=None, nostub=False):
         """Interpret a python function / IFunc of the repo (or of the sidecar contracts)."""
         stubs = self.cfg.get("stubs_map")
-        if stubs and not isinstance(f, IFunc) and f in stubs:
+        if stubs and not nostub and not isinstance(f, IFunc) and f in stubs:
             # callee replaced by its executable contract (a function in /verif/contracts); the real
             # function is proved to satisfy that contract by its own lemmas
             self.contracts_used.add(f"{f.__module__}:{f.__qualname__} -> {stubs[f].__module__}:{stubs[f].__qualname__}")
